@@ -33,6 +33,9 @@ pub struct LayerD {
     pub color: Option<(u8, u8, u8)>,
     pub default_font_page: u16,
     pub cells: Vec<CellD>,
+    /// role Image: one sixel picture (width, height in pixels, RGBA bytes) instead of cells
+    #[serde(default)]
+    pub image: Option<(i32, i32, Vec<u8>)>,
 }
 
 impl LayerD {
@@ -53,6 +56,7 @@ impl LayerD {
             color: None,
             default_font_page: 0,
             cells: vec![],
+            image: None,
         }
     }
 }
@@ -172,6 +176,10 @@ pub fn build_layer(l: &LayerD) -> Layer {
     layer.transparency = l.transparency;
     layer.default_font_page = l.default_font_page as usize;
     layer.role = Role::Normal;
+    if let Some((w, h, data)) = &l.image {
+        layer.role = Role::Image;
+        layer.sixels.push(icy_engine::Sixel::from_data((*w, *h), 1, 1, data.clone()));
+    }
     layer.set_offset((l.ox, l.oy));
     for c in &l.cells {
         if let Some(ch) = char::from_u32(c.ch) {
